@@ -9,7 +9,7 @@ EXPLANATION = (
     "unnamed pools have distinct names."
 )
 ASSUMPTIONS = ["bounds: <= 2 pools, <= 6 tasks"]
-BUDGET = {"quick": 120, "thorough": 1800}
+BUDGET = {"quick": 120, "thorough": 900}
 MON = ["C11"]
 
 
